@@ -27,6 +27,9 @@ var c10Corpus = []string{
 }
 
 var c10Hostile = []string{
+	// many recorded errors on different lines / at different offsets
+	"a == `\xff\n\xfe\n\xfd\n\xfc\n\xfb\n\xfa\n\xf9\n\xf8\n\xc0\n\xc1\n\x80\n\x81\n\x82`", "a == \"x\xffy\" and\nb == \"\xfe\" and\nc == \"\xfd\" and\nd == \"\xfc\" and\ne == \"\xfb\" and\nf == \"\xfa\" and\ng == \"\xf9\" and\nh == \"\xf8\" and\ni == \"\xc0\" and\nj == \"\xc1\" and\nk == \"\x80\" and\nl == \"\x81\"",
+	"a == \"\\q1\"\nand b == \"\\q2\"\nand c == \"\\q3\"\nand d == \"\\q4\"\nand e == \"\\q5\"\nand f == \"\\q6\"\nand g == \"\\q7\"\nand h == \"\\q8\"\nand i == \"\\q9\"\nand j == \"\\qa\"\nand k == \"\\qb\"\nand l == \"\\qc\"",
 	"a == \"\ufffd\"", "a == `x\ufffdy`", "a[\"\ufffd\"] == 1", "\ufffd", "a == 1\ufffd", "a == b[\"c.d\"]",
 	"", " ", "\t\r\n", "(", ")", "()", "( )", "((", "))", "{", "}", "[", "]", ".", ",", "\"", "`", "\"\"", "``", "\"\\", "\"\\\"", "'", "''",
 	"a", "a ==", "== 1", "a == ", "a == \"", "a == `", "a == \"\\q\"", "a == \"\\x4\"", "a == \"\\u12\"", "a == \"\n\"", "a == \"\xff\"", "a == `\xff`", "\xff", "\xc3", "\xed\xa0\x80", "\xf4\x90\x80\x80",
